@@ -1,3 +1,5 @@
 import Nstd.Server.PropsC13
 import Nstd.Server.PropsC14
 import Nstd.Server.PropsC13Batch
+import Nstd.Server.PropsTr
+import Nstd.Server.PropsTr13
